@@ -193,12 +193,12 @@ func runDriver(args []string) int {
 			defer func() { <-sem }()
 			vacs[i] = vac{fn: vc.Name}
 			pre := w.vacuityScript(vc, vc.PreLines, True, specFns)
-			pr := Solve(dir, "vac_pre_"+sanitize(vc.Name), pre, 5, false)
+			pr := SolveVac(dir, "vac_pre_"+sanitize(vc.Name), pre, 3)
 			vacs[i].pre = pr.Status
 			vacs[i].who = pr.Solver
 			if len(vc.ReachRet) > 0 {
 				r := w.vacuityScript(vc, len(vc.Lines), Or(vc.ReachRet...), specFns)
-				rr := Solve(dir, "vac_reach_"+sanitize(vc.Name), r, 5, false)
+				rr := SolveVac(dir, "vac_reach_"+sanitize(vc.Name), r, 3)
 				vacs[i].reach = rr.Status
 				vacs[i].who += "/" + rr.Solver
 			} else {
